@@ -90,6 +90,9 @@ mod tree;
 #[cfg(feature = "cache")]
 pub use crate::builder::CacheOptionsBuilder;
 pub use crate::builder::HypercoreBuilder;
+#[cfg(feature = "verif-hooks")]
+#[doc(hidden)]
+pub use crate::bitfield::verif_probe::BitfieldProbe;
 pub use crate::common::{
     DataBlock, DataHash, DataSeek, DataUpgrade, HypercoreError, Node, Proof, RequestBlock,
     RequestSeek, RequestUpgrade, Store,
